@@ -623,3 +623,50 @@ Proof.
   rewrite (ext_request zinflate fs vo _ (text ++ [0]) H2); [| destruct text; discriminate | rewrite H4; exact Hp].
   rewrite app_length, Nat2Z.inj_add. reflexivity.
 Qed.
+
+(* ---- the record limit as it is now (d41003f): the text limit plus the terminating NUL ---- *)
+Lemma ext_limit_value :
+  c18_ext_size_limit = c06_cut_text_limit + 1 /\ c18_lvc_ext_size_limit = c18_lvc_cut_limit + 1 /\
+  c06_cut_text_limit = 2 ^ 20 /\ c18_lvc_cut_limit = 2 ^ 20.
+Proof. repeat split; reflexivity. Qed.
+
+Lemma ext_text_range : forall text : list Z, Z.of_nat (length text) <= 2 ^ 20 ->
+  Z.of_nat (length text) + 1 <= c18_ext_size_limit /\ Z.of_nat (length text) + 1 <= c18_lvc_ext_size_limit.
+Proof.
+  intros text H. destruct ext_limit_value as (E1 & E2 & E3 & E4). rewrite E1, E2, E3, E4. lia.
+Qed.
+
+(* client -> server for every text of 0..2^20 bytes (record-level condition discharged) *)
+Lemma ext_c2s_full : forall zinflate zsync fs cfg o c b1 b2 l text bytes r,
+  c_state c = SNormal -> c_closed c = false -> c_viewonly c = false -> k_ext (c_clip c) = true ->
+  let content := be32 (Z.of_nat (length text) + 1) ++ text ++ [0] in
+  zinflate (zsync content) = (content, ZMore) ->
+  Z.of_nat (length text) <= 2 ^ 20 ->
+  4 + Z.of_nat (length (zsync content)) <= c06_cut_text_limit ->
+  lvc_send_utf8 zsync l text = Some bytes ->
+  st_bytes (c_in c) = bytes ++ r ->
+  let a1 := handle_client (ext_cut_real zinflate fs) cfg o c b1 in
+  let a2 := handle_client (ext_cut_real zinflate fs) cfg (a_owner a1) (a_client a1) b2 in
+  a_events a1 = [] /\ a_events a2 = [EvCutUTF8 (c_id c) (text ++ [0]) 0] /\
+  c_closed (a_client a2) = false /\ st_bytes (c_in (a_client a2)) = r /\ c_clip (a_client a2) = c_clip c.
+Proof.
+  intros zinflate zsync fs cfg o c b1 b2 l text bytes r Hst Hcl Hvo He content Hz Hs.
+  apply (ext_c2s zinflate zsync fs cfg o c b1 b2 l text bytes r Hst Hcl Hvo He Hz).
+  destruct (ext_text_range text Hs); assumption.
+Qed.
+
+(* server -> client for every text of 0..2^20 bytes: what rfbSendServerCutTextUTF8 queues
+   (C18_ext_s2c_sent) reaches GotXCutTextUTF8 as text ++ [0] *)
+Lemma lvc_recv_provide_text : forall zinflate zcompress xl l text,
+  l_utf8 l = true -> Z.of_nat (length text) <= 2 ^ 20 ->
+  let content := be32 (Z.of_nat (length text) + 1) ++ text ++ [0] in
+  zinflate (zcompress content) = (content, ZEnd) ->
+  4 + Z.of_nat (length (zcompress content)) <= c18_lvc_cut_limit ->
+  lvc_recv zinflate xl l (enc_out zcompress (OProvide content)) = (l, [GotCutUTF8 (text ++ [0]) 0], true).
+Proof.
+  intros zinflate zcompress xl l text Hu Hs content Hz Hc. unfold content in *.
+  assert (Hd : Z.of_nat (length (text ++ [0])) = Z.of_nat (length text) + 1)
+    by (rewrite app_length; cbn [length]; lia).
+  rewrite <- Hd in *. apply lvc_recv_provide; try assumption.
+  rewrite Hd. destruct (ext_text_range text Hs). lia.
+Qed.
